@@ -48,6 +48,19 @@ BOX_SETUP = """  G_xs[0] = xs0; G_xs[1] = xs1; G_ys[0] = ys0; G_ys[1] = ys1;
   __CPROVER_assume(box_wf(&G_bx, G_xs) && box_wf(&G_by, G_ys) && pt_ok());
   G_xs0[0] = G_xs[0]; G_xs0[1] = G_xs[1]; G_fx0 = fx;
   G_satX0 = box_sat(&G_bx, G_xs); G_satY0 = box_sat(&G_by, G_ys); G_emptyX0 = box_empty(&G_bx, G_xs); G_emptyY0 = box_empty(&G_by, G_ys);"""
+BOX_NATIVE_DECL = """
+#define XSTR2(a) #a
+#define XSTR(a) XSTR2(a)
+ex_t G_an, G_bn; int G_as, G_bs; ITV_T G_to0; int64_t G_z;
+ITV_T G_xs[BOX_N], G_ys[BOX_N]; BOX_T G_bx, G_by; ex_t G_pn[BOX_N]; int G_ps[BOX_N]; ITV_T G_xs0[BOX_N]; uint32_t G_fx0;
+int G_satX0, G_satY0, G_emptyX0, G_emptyY0; uint32_t G_tokens, G_tokens0; int G_plain_changed; uint32_t G_fy0;
+"""
+def box_native(fn, ret, proto, call, posts, extra_pre=""):
+    """native replay of a box task: the harness objects are rebuilt around the counterexample values and handed to the real function"""
+    pre = re.sub(r'__CPROVER_assume\((.*)\);', r'PRE(operands_well_formed, \1)', BOX_SETUP) + "\n  BOX_T *x = &G_bx, *y = &G_by;" + extra_pre
+    return {"decl": BOX_NATIVE_DECL + "extern %s real_fn(%s) __asm__(XSTR(%s));" % (ret, proto, fn), "pre": pre, "call": call, "post": posts,
+            "show": 'printf("  x: flags=%u  y: flags=%u\\n", BOX_FLAGS(&G_bx), BOX_FLAGS(&G_by));'}
+
 def box_tasks(u, tt, pol, dims):
     T = []; w = u.defs["T_W"]
     for d in dims:
@@ -56,14 +69,17 @@ def box_tasks(u, tt, pol, dims):
                   stubs=["c12_ghost.c", "c17_ghost.c", "c03_box.c"], harness_pre=BOX_SETUP, group="box %s %s" % (tt, pol))
         for op in BOX_OPS1:
             call = ("FN_b_%s(&G_bx)" if op in BOX_VOID else "_Bool r = FN_b_%s(&G_bx)") % op
-            T.append(Task("box/%s/%s/%s/dim%d" % (tt, pol, op, d), u, "FN_b_" + op, ["C03/box.h"], box_vars(), call,
+            nat = box_native("FN_b_" + op, "void" if op in BOX_VOID else "bool", "BOX_T*", "real_fn(x)" if op in BOX_VOID else "bool r = real_fn(x)", "C_b_%s_POSTS(%s)" % (op, "0" if op in BOX_VOID else "r"))
+            T.append(Task("box/%s/%s/%s/dim%d" % (tt, pol, op, d), u, "FN_b_" + op, ["C03/box.h"], box_vars(), call, native=nat,
                           reach=[("point inside", "G_satX0"), ("x empty but not marked", "G_emptyX0 && !(fx & BST_EMPTY)")] if d > 0 else [], **kw))
         for op in BOX_OPS2:
             call = ("FN_b_%s(&G_bx, &G_by)" if op in BOX_VOID else "_Bool r = FN_b_%s(&G_bx, &G_by)") % op
-            T.append(Task("box/%s/%s/%s/dim%d" % (tt, pol, op, d), u, "FN_b_" + op, ["C03/box.h"], box_vars(), call,
+            nat = box_native("FN_b_" + op, "void" if op in BOX_VOID else "bool", "BOX_T*, BOX_T*", "real_fn(x, y)" if op in BOX_VOID else "bool r = real_fn(x, y)", "C_b_%s_POSTS(%s)" % (op, "0" if op in BOX_VOID else "r"))
+            T.append(Task("box/%s/%s/%s/dim%d" % (tt, pol, op, d), u, "FN_b_" + op, ["C03/box.h"], box_vars(), call, native=nat,
                           reach=[("point in both", "G_satX0 && G_satY0")] if d > 0 else [], **kw))
         if d > 0:
             T.append(Task("box/%s/%s/unconstrain/dim%d" % (tt, pol, d), u, "FN_b_unconstrain", ["C03/box.h"], box_vars() + [Var("uint64_t", "v")], "FN_b_unconstrain(&G_bx, v)",
+                          native=box_native("FN_b_unconstrain", "void", "BOX_T*, uint64_t", "real_fn(x, v)", "C_b_unconstrain_POSTS(0)", extra_pre=" PRE(var, v < BOX_D)"),
                           reach=[("point inside", "G_satX0")], **kw))
     return T
 
